@@ -23,7 +23,11 @@ EXPLANATION = (
     "inlined on the same domain (all subsets as selection) and the post-state must be the rule-consistent result of the equivalent "
     "sequence of single writes; unknown names raise before any change. C09.GATE: every store to an element's _value in the driver package "
     "lies in the setter, the rule function, __init__ or the documented reset_* functions, and nothing reachable from the operations calls "
-    "reset_*. C09.WIRE: a client write reaches the element through set_value -> value property (C14.MSG)."
+    "reset_*. C09.WIRE: a client write reaches the element through set_value -> value property (C14.MSG). C09.SIZES: the same step table "
+    "on constructed vectors of 1, 2 and 4 switches - the rule may not depend on the vector's size (a OneOfMany vector of one cannot be "
+    "switched off). C09.VETO: 120 client writes through set_value with a handler model behind raise_event: when the Write handlers run "
+    "nothing has changed yet, a vetoed write changes and publishes nothing, an accepted one follows the rule table - validation that has "
+    "side effects (the switch rule lives in check_value) must not run before the veto is known."
 )
 NOT_DECIDED = "initial configurations (several default_on under OneOfMany); enumeration of whole histories is replaced by the induction."
 ASSUMPTIONS = ["switch elements do not override __eq__ (identity in 'el != sender')", "a multi-element client write is applied element by element (decided by C06.KEY)"]
@@ -291,6 +295,81 @@ def rule_sizes(ctx):
     ctx.exhaustive_domains.append("vector sizes 1, 2, 4 (<= 2 On) x 3 rules x configurations x written switch x {On, Off, invalid}")
 
 
+def rule_veto(ctx):
+    """A client write goes through set_value: the Write handlers run first and may veto.  Evaluated on the constructed
+    vector with a handler model behind raise_event: (a) when the handler is entered nothing has changed yet - a handler
+    that inspects the property sees the state before the write; (b) a vetoed write changes nothing and publishes nothing,
+    so the rule cannot be broken by validation side effects that run before the veto is known."""
+    p = ctx.p
+    _init(p)
+    sv, sw = _classes(p)
+    el = p.cls("indi.device.properties.instance.elements.Element")
+    f = sw.find_method("set_value")
+    if f is None:
+        raise Undecided("set_value not found")
+    base_pol = _inline_policy(p)
+    wcls = p.cls("indi.device.events.Write")
+
+    def pol(fi, node):
+        return base_pol(fi, node) or (fi.cls in (sw, el) and fi.name in ("set_value", "set_value_from_message")) or (fi.module.name == "indi.device.events" and fi.name == "__init__") or (fi.kind == "getter" and fi.module.name.startswith("indi.device.properties.instance"))
+
+    n = bad = 0
+    for rule in ("OneOfMany", "AtMostOne", "AnyOfMany"):
+        for config in ((ON, OFF, OFF), (OFF, ON, OFF), (OFF, OFF, OFF), (ON, ON, OFF)):
+            if rule != "AnyOfMany" and sum(1 for v in config if v == ON) > 1:
+                continue
+            for idx in range(3):
+                for written in (ON, OFF):
+                    for veto in (True, False):
+                        n += 1
+
+                        def effect(it, callee, args, kwargs, ev):
+                            if callee.fi.name == "raise_event" and args and isinstance(args[0], Obj) and args[0].cls is wcls:
+                                it.at_write = _state(it.els)
+                                it.sent_before_write = len([e for e in it.events if e.kind == "call" and is_call(e.data["term"], method="send_message")])
+                                if veto:
+                                    args[0].attrs["prevent_default"] = Const(True)
+                                return Const(None)
+                            return None
+
+                        def run(it: Interp):
+                            vec, els = make_world(p, rule, config, it)
+                            it.els = els
+                            it.at_write = None
+                            del it.events[:]
+                            return it.run_function(Fn(f, els[idx]), [Const(written)], {})
+
+                        paths = explore(p, run, {"inline": pol, "assert_forks": True, "max_depth": 9, "call_effect": effect, "instantiate": lambda ci: ci.module.name == "indi.device.events"})
+                        ctx.paths_enumerated += len(paths)
+                        row = f"rule={rule} state={dict(zip(NAMES, config))} client write {NAMES[idx]}={written}" + (" vetoed by a Write handler" if veto else "")
+                        if len(paths) != 1 or paths[0].outcome != "return":
+                            ctx.undecided("C09.VETO", f.short, f"[{row}] not decided by constant evaluation ({len(paths)} paths{'' if len(paths) != 1 else ', ' + paths[0].outcome})", fi=f)
+                            bad += 1
+                            continue
+                        pa = paths[0]
+                        if pa.interp.at_write is None:
+                            ctx.violated("C09.VETO", f.short, f"[{row}] no Write event reaches the handlers", fi=f, text="no-write-event", witness=row)
+                            bad += 1
+                            continue
+                        if pa.interp.at_write != tuple(config) or pa.interp.sent_before_write:
+                            ctx.violated("C09.VETO", f.short, f"[{row}] when the Write handlers run the switches are already {dict(zip(NAMES, pa.interp.at_write))}: state changes before the handlers (and before a possible veto)", fi=f, text=f"changed-before-write:{rule}", witness=row)
+                            bad += 1
+                            continue
+                        after = _state(pa.interp.els)
+                        if veto:
+                            if after != tuple(config) or pa.calls(method="send_message"):
+                                ctx.violated("C09.VETO", f.short, f"[{row}] leaves {dict(zip(NAMES, after))}: a vetoed write must change and publish nothing", fi=f, text=f"veto-ignored:{rule}", witness=row)
+                                bad += 1
+                        else:
+                            exp = oracle_step(rule, config, idx, written)
+                            if after != exp:
+                                ctx.violated("C09.VETO", f.short, f"[{row}] leaves {dict(zip(NAMES, after))}, the rule prescribes {dict(zip(NAMES, exp))}", fi=f, text=f"effect:{rule}:{written}", witness=row)
+                                bad += 1
+    ctx.counters["C09.VETO:rows"] = n
+    if not bad:
+        ctx.holds("C09.VETO", f.short, f"{n} client writes (vetoed and not): handlers see the state before the write; a veto leaves it untouched; otherwise the rule table", fi=f)
+
+
 def _aux_state(vec, els):
     """Everything the vector/elements hold besides the switch values and the construction-time links."""
     skip = {VAL}  # construction-time links render as stable labels and never change
@@ -541,6 +620,7 @@ def rule_gate(ctx):
 RULES = [
     ("C09.STEP", rule_step, "induction step: every single write leaves the vector in the state the rule table prescribes; invalid values raise; publication after stores"),
     ("C09.SIZES", rule_sizes, "the same step table for vectors of 1, 2 and 4 switches (degenerate sizes included)"),
+    ("C09.VETO", rule_veto, "client writes through set_value with a Write handler: pre-state at handler time, veto leaves everything untouched"),
     ("C09.REACH", rule_reach, "closure of reachable (values, auxiliary state) states under single writes: every transition follows the rule table"),
     ("C09.BOOL", rule_bool, "bool_value maps to On/Off through the value property"),
     ("C09.BULK", rule_bulk, "selected_value(s) setters = rule-consistent sequence of single writes over all elements"),
